@@ -32,6 +32,7 @@ mod optin_e2e;
 mod budgets_corr;
 mod attrs_corr;
 mod braces_corr;
+mod types_corr;
 mod corpus;
 mod gen;
 mod sweep;
@@ -115,6 +116,7 @@ fn main() {
         "budgets" => budgets_corr::run(&tier, seed, &out),
         "attrs" => attrs_corr::run(&tier, seed, &out),
         "braces" => braces_corr::run(&tier, seed, &out),
+        "types" => types_corr::run(&tier, seed, &out),
         "optin-dump" => optin_corr::dump(&args[2], args.get(3)),
         "boundary" => boundary::main(&args[2..]),
         "c03" => c03::run(&tier, seed, &out),
